@@ -135,7 +135,7 @@ impl EXD {
     ) -> Option<ColumnData> {
         let mut read_packed_bool = |shift: i32| -> bool {
             let bit = 1 << shift;
-            let bool_data: i32 = Self::read_data_raw(cursor).unwrap_or(0);
+            let bool_data: u8 = Self::read_data_raw(cursor).unwrap_or(0);
 
             (bool_data & bit) == bit
         };
@@ -161,8 +161,7 @@ impl EXD {
                 Some(ColumnData::String(string))
             }
             ColumnDataType::Bool => {
-                // FIXME: i believe Bool is int8?
-                let bool_data: i32 = Self::read_data_raw(cursor).unwrap();
+                let bool_data: u8 = Self::read_data_raw(cursor).unwrap();
 
                 Some(ColumnData::Bool(bool_data == 1))
             }
